@@ -124,7 +124,8 @@ def run_property(pid, tier, repo, replay=None, quiet=False):
             continue
         printed.add(e["id"])
         say("KNOWN-FINDING: property=%s %s [%s] %s" % (pid, e["id"], f.rule, e["summary"]))
-    replay_dir = os.path.join(VERIF, "evidence", "replay")
+    replay_dir = os.path.join(os.environ.get("SA_EVIDENCE_DIR") or os.path.join(VERIF, "evidence"),
+                              "replay")
     for f in violations:
         os.makedirs(replay_dir, exist_ok=True)
         dg = hashlib.sha1(repr(f.key).encode()).hexdigest()[:10]
@@ -198,7 +199,7 @@ def write_evidence(pid, spec, ctx, results, violations, known, controls, adequac
         "wall_s": round(wall, 3),
         "violations": len(violations),
     }
-    d = os.path.join(VERIF, "evidence")
+    d = os.environ.get("SA_EVIDENCE_DIR") or os.path.join(VERIF, "evidence")
     os.makedirs(d, exist_ok=True)
     tmp = os.path.join(d, ".%s.json.tmp" % pid)
     with open(tmp, "w") as fh:
